@@ -74,6 +74,17 @@ def _record(item):
             except Exception:
                 out = [-1]
             case["maps"].append({"idxs": s, "out": out, "sorted": srt})
+    # positions in a narrow integer dtype: they fit, the original indices they map to may not
+    if len(P) > 130:
+        for dt in (np.int8, np.uint8, np.int16, np.uint16, np.int32):
+            if k - 1 <= np.iinfo(dt).max:
+                s = sorted(rng.sample(range(k), min(k, 6))) if k > 6 else list(range(k))
+                try:
+                    out = rdp.mapping(np.array(s, dtype=dt), red, rem)
+                    out = [int(v) for v in np.asarray(out).tolist()]
+                except Exception:
+                    out = [-1]
+                case["maps"].append({"idxs": s, "out": out, "sorted": True})
     return case
 
 
@@ -88,6 +99,12 @@ def _inputs(ctx):
         for f in ["rdp", "grdp", "rdp_fixed", "mp_grdp", "min_point_rdp"]:
             spec = simpl.random_spec(rng, P, f)
             items.append(("c%d-%s" % (ci, f), P.tolist(), spec, rng.randrange(1 << 30)))
+    # long curves reduced to a handful of points (original indices beyond the range of narrow integer types)
+    for li, n in enumerate([300, 420, 40000] if ctx.quick else [300, 420, 1000, 40000, 70000]):
+        x = np.arange(n, dtype=float)
+        y = 100.0 / (1.0 + x / (n / 20.0)) + np.array([rng.random() * 0.01 for _ in range(n)])
+        P = curves.mk(x, y)
+        items.append(("long%d" % li, P.tolist(), {"f": "rdp_fixed", "length": rng.randint(8, 40), "distance": "shortest", "order": "triangle"}, rng.randrange(1 << 30)))
     return items
 
 
